@@ -572,9 +572,9 @@ example : (runThread demoClient .login
     ([(1, []), (5, [1]), (1, []), (5, [2]), (2, [])], .raised .eof, ⟨.playing, false⟩) := by
   decide +kernel
 -- the stream ends at a frame boundary of the status connection (here: before any byte): the thread
--- raises `EOFError` — where `HsWire.clientRecvStatus` reports a clean end `([], none)`
+-- raises `EOFError` — and so does `HsWire.clientRecvStatus`: `([], .eof)`
 example : (runThread demoClient .playingStatus []).view = ([], .raised .eof, ⟨.playingStatus, false⟩)
-    ∧ HsWire.clientRecvStatus [] = ([], none) := by decide +kernel
+    ∧ HsWire.clientRecvStatus [] = ([], .eof) := by decide +kernel
 -- `status_cut_eof`, `status_cut_takes_fallback`: hypotheses satisfiable
 example := status_cut_eof (cfb8Pair toyE) (fun key : Bytes => key) Zlib.ident demoReact "{}"
   (by decide +kernel) 3 (by decide +kernel) [[0x04], [0x00, 0x02]] (by decide +kernel)
